@@ -346,7 +346,8 @@ class Interp:
         if k == "Lit":
             return ("lit", e.get("v"))
         if k in ("Const", "Static"):
-            return ("const", e["def"])
+            # a trait's associated const carries the Self type it is taken from (the trait's default body is not its value)
+            return ("const", e["def"], e["self_ty"]) if e.get("self_ty") else ("const", e["def"])
         if k == "Zst":
             return ("fn", e.get("fn")) if e.get("fn") else ("unit",)
         if k == "Field":
